@@ -325,7 +325,44 @@ func (s *session) QueryMachine() error {
 	}
 }
 
+// fetchAndWriteResults runs the statements and keeps the state of an explicit
+// transaction block the way PostgreSQL does: a statement that fails inside
+// BEGIN ... aborts the block, what follows is refused until COMMIT / ROLLBACK
+// (both end the block without committing anything) and ReadyForQuery reports 'E'.
 func (s *session) fetchAndWriteResults(statements string, parameters []*schema.NamedParam, resultColumnFormatCodes []int16, extQueryMode bool) error {
+	tag := commandTagFor(statements)
+	endsBlock := endsTxBlock(tag, statements)
+	if s.txStatus == bm.TxStatusFailed {
+		if !endsBlock {
+			return pserr.ErrTxAborted
+		}
+		s.txStatus = bm.TxStatusIdle
+		_, err := s.writeMessage(bm.CommandComplete([]byte("ROLLBACK")))
+		return err
+	}
+
+	inBlock := s.tx != nil || tag == "BEGIN"
+	err := s.execAndWriteResults(statements, parameters, resultColumnFormatCodes, extQueryMode)
+	if err != nil && inBlock && !endsBlock {
+		// the engine cancels the transaction when an Exec statement fails, but not
+		// on a failing query or a statement it cannot parse
+		if s.tx != nil && !s.tx.Closed() {
+			s.tx.Cancel()
+		}
+		s.tx = nil
+		s.txStatus = bm.TxStatusFailed
+	}
+	return err
+}
+
+var rollbackToRe = regexp.MustCompile(`(?i)^\s*ROLLBACK\s+((WORK|TRANSACTION)\s+)?TO\b`)
+
+// endsTxBlock: COMMIT / END / ROLLBACK / ABORT end the transaction block, ROLLBACK TO SAVEPOINT does not.
+func endsTxBlock(tag, statements string) bool {
+	return tag == "COMMIT" || (tag == "ROLLBACK" && !rollbackToRe.MatchString(statements))
+}
+
+func (s *session) execAndWriteResults(statements string, parameters []*schema.NamedParam, resultColumnFormatCodes []int16, extQueryMode bool) error {
 	tag := commandTagFor(statements)
 	// Track explicit transaction state so the next ReadyForQuery message
 	// reports the correct transaction-status byte. Clients (pq, JDBC)
@@ -335,7 +372,9 @@ func (s *session) fetchAndWriteResults(statements string, parameters []*schema.N
 	case "BEGIN":
 		s.txStatus = bm.TxStatusInTx
 	case "COMMIT", "ROLLBACK":
-		s.txStatus = bm.TxStatusIdle
+		if endsTxBlock(tag, statements) {
+			s.txStatus = bm.TxStatusIdle
+		}
 	}
 	if s.isInBlackList(statements) {
 		_, err := s.writeMessage(bm.CommandComplete([]byte(tag)))
